@@ -833,35 +833,17 @@ Proof.
   exists es. split; [exact He|]. exact (header_length_sound _ _ _ _ Hp Hn).
 Qed.
 
-(* the full list statement is false for the code as it is: "1,<VT>,5" *)
-Theorem relaxed_all_occurrences_refuted :
-  exists vs v, uses (snd (check_fields true cl_init vs)) v /\
-    ~ (forall o, In o (concat (map occurrences vs)) -> is_token true o v).
-Proof.
-  exists [[49; 44; 11; 44; 53]], 1%Z. split.
-  - vm_compute. repeat split.
-  - intros H. assert (Hin : In [53] (concat (map occurrences [[49; 44; 11; 44; 53]]))).
-    { vm_compute. right. left. reflexivity. }
-    specialize (H _ Hin). apply cv_parse_token in H. vm_compute in H. discriminate.
-Qed.
-
-(* and the same through HttpHeader::parse on the block "Content-Length: 1,<VT>,5 CRLF CRLF" *)
+(* the former counterexample (fixed in /repo by "fix: strListGetItem() stopped iterating at a list element
+   made of VT/FF only"): "1,<VT>,5" is now examined to the end and flagged *)
 Definition vt_block : bytes :=
   [67;111;110;116;101;110;116;45;76;101;110;103;116;104;58;32;49;44;11;44;53;13;10;13;10].
-Theorem block_vt_list_refuted :
-  exists r, hdr_parse true false false vt_block = Some r /\ content_length r = 1%Z /\
-    h_conflicting r = false /\
-    exists es, block_entries true false vt_block = Some es /\
-      In [53] (concat (map occurrences (cl_values es))) /\ ~ is_token true [53] 1.
+Lemma vt_list_flagged : cl_sawBad (snd (check_fields true cl_init [[49; 44; 11; 44; 53]])) = true.
+Proof. vm_compute. reflexivity. Qed.
+Lemma block_vt_list_flagged :
+  exists r, hdr_parse true false false vt_block = Some r /\ content_length r = (-1)%Z /\ h_conflicting r = true.
 Proof.
   destruct (hdr_parse true false false vt_block) as [r|] eqn:E; [|vm_compute in E; discriminate].
-  exists r. assert (Hc : content_length r = 1%Z /\ h_conflicting r = false).
-  { vm_compute in E. inversion E. vm_compute. now split. }
-  destruct Hc as [H1 H2]. repeat split; try assumption.
-  destruct (block_entries true false vt_block) as [es|] eqn:Eb; [|vm_compute in Eb; discriminate].
-  exists es. split; [reflexivity|]. vm_compute in Eb. inversion Eb. split.
-  - vm_compute. right. left. reflexivity.
-  - intros H. apply cv_parse_token in H. vm_compute in H. discriminate.
+  exists r. split; [reflexivity|]. vm_compute in E. inversion E. vm_compute. now split.
 Qed.
 
 Lemma tables_spec relaxed c :
@@ -935,7 +917,7 @@ Proof.
 Qed.
 
 (* characters of a list piece for which the code's leading-delimiter set and xisspace agree *)
-Definition plain (c : N) : bool := negb ((c =? 11) || (c =? 12) || (c =? 44)).
+Definition plain (c : N) : bool := negb (c =? 44).
 
 Lemma lead_space_plain c : plain c = true -> is_lead c = c_isspace c.
 Proof. unfold plain, is_lead, c_isspace. lia. Qed.
@@ -979,10 +961,10 @@ Proof.
 Qed.
 
 (* the hypothesis of the partial theorem: what HttpHeader::parse guarantees (no NUL) plus the exclusion of
-   the characters behind finding C26-list-stops-at-vt-item and of quoted strings, in list-like fields only *)
+   double quotes (quoted strings) in list-like fields *)
 Definition clean (f : bytes) : Prop :=
   forallb (fun c => negb (c =? 0)) f = true /\
-  (existsb (N.eqb 44) f = true -> forallb (fun c => negb ((c =? 11) || (c =? 12) || (c =? 34))) f = true).
+  (existsb (N.eqb 44) f = true -> forallb (fun c => negb (c =? 34)) f = true).
 
 Lemma c_str_nonul f : forallb (fun c => negb (c =? 0)) f = true -> c_str f = f.
 Proof.
@@ -994,11 +976,8 @@ Lemma field_occ_clean f : clean f -> field_occ true f = map (cv_parse true) (occ
 Proof.
   intros [Hn Hq]. unfold field_occ, occurrences, has_comma. rewrite (c_str_nonul f Hn).
   destruct (existsb (N.eqb 44) f) eqn:Ec; [|reflexivity]. specialize (Hq eq_refl). f_equal.
-  assert (Hnq : noquote f) by (unfold noquote; revert Hq; apply forallb_imp; intros x; lia).
-  rewrite (proj2 (split_items_noquote f Hnq)). apply examined_lead_items.
-  assert (Hp : forallb (fun c => negb ((c =? 11) || (c =? 12))) f = true)
-    by (revert Hq; apply forallb_imp; intros x; lia).
-  pose proof (split_on_pieces _ 44 f Hp) as HF. revert HF. apply Forall_impl. intros p.
+  rewrite (proj2 (split_items_noquote f Hq)). apply examined_lead_items.
+  pose proof (split_on_pieces _ 44 f Hq) as HF. revert HF. apply Forall_impl. intros p.
   apply forallb_imp. intros x. unfold plain. lia.
 Qed.
 
